@@ -2,6 +2,17 @@
 from facts import Sym, path_is, strip_generics, strip_sym, sym_arg, sym_calls, sym_is_call, sym_str, sym_through, sym_walk
 from props.common import arg_syms, bool_switches, callee_method_name, calls_to, crate_stats, enum_arms, gates, in_cycle, need, nonforeign_calls, one_method
 
+KEEP = [  # private helpers the rules name (kept as functions); every other non-exported, non-trait function is spliced into its callers
+    "AtomicCounter::flush", "AtomicCounter::new", "AtomicGauge::flush", "AtomicGauge::new",
+    "AtomicHistogram::flush", "AtomicHistogram::new", "AtomicHistogram::record", "ClientSideAggregatedStorage::new",
+    "DogStatsDRecorder::new", "Forwarder::new", "PayloadWriter::commit", "PayloadWriter::current_len",
+    "PayloadWriter::last_offset", "PayloadWriter::new", "PayloadWriter::payloads", "PayloadWriter::prepare_for_write",
+    "PayloadWriter::write_counter", "PayloadWriter::write_distribution", "PayloadWriter::write_gauge", "PayloadWriter::write_hist_dist_inner",
+    "PayloadWriter::write_histogram", "PayloadWriter::write_trailing", "Payloads::len", "State::flush",
+    "State::new", "Telemetry::new", "TelemetryUpdate::clear", "WriteResult::failure",
+    "WriteResult::increment_payloads_written", "WriteResult::increment_points_dropped", "WriteResult::new", "WriteResult::payloads_written",
+    "WriteResult::points_dropped", "WriteResult::success", "writer::write_metric_trailer",
+]
 TITLE = "C09 DogStatsD payloads are valid, bounded, and account for every point."
 CONFIGS = ["test-profile"]
 D = "metrics_exporter_dogstatsd"
@@ -244,7 +255,7 @@ def run(ctx):
             else:
                 s_ = _bytes_const(a)
                 seq.append(s_ if s_ is not None else sym_str(strip_sym(a))[:20])
-        tr = [c for c in nonforeign_calls(f) if c.fn is f and c.is_("PayloadWriter::write_trailing")]
+        tr = [c for c in nonforeign_calls(f) if c.fn is f and c.is_("PayloadWriter::write_trailing", "writer::write_metric_trailer")]
         fmtname = "ryu::format" if wname == "write_gauge" else "itoa::format"
         want = ["<prefix>", ".", "<name>", ":", f"<value:{fmtname}>"]
         got = seq[:5]
